@@ -1036,6 +1036,8 @@ class Interp:
         # zero-arg super()
         if f is builtins.super and not args:
             return self._super(env)
+        if f is builtins.super and len(args) == 2 and isinstance(args[0], type) and not isinstance(args[1], Obj):
+            return builtins.super(args[0], args[1])          # explicit super(C, obj) on a real (native) object
         return self.call(f, args, kwargs)
 
     def ex_Yield(self, e, env):
